@@ -545,10 +545,11 @@ struct Case {
     vu: bool,
     rsegs: Vec<usize>,
     wsegs: Vec<usize>,
+    notify: Option<String>,
 }
 
 fn parse_case(line: &str) -> Case {
-    let mut c = Case { id: String::new(), transport: "fusedev".into(), cap: 0, req: vec![], fs: FsRes::Unit, remap: Some((0, 0)), prior_minor: None, vu: false, rsegs: vec![], wsegs: vec![] };
+    let mut c = Case { id: String::new(), transport: "fusedev".into(), cap: 0, req: vec![], fs: FsRes::Unit, remap: Some((0, 0)), prior_minor: None, vu: false, rsegs: vec![], wsegs: vec![], notify: None };
     for tok in line.split_whitespace() {
         let (k, v) = tok.split_once('=').unwrap();
         match k {
@@ -562,6 +563,7 @@ fn parse_case(line: &str) -> Case {
             "vu" => c.vu = v == "1",
             "rsegs" => c.rsegs = nums(v).iter().map(|x| *x as usize).collect(),
             "wsegs" => c.wsegs = nums(v).iter().map(|x| *x as usize).collect(),
+            "notify" => c.notify = Some(v.to_string()),
             _ => panic!("bad key {}", k),
         }
     }
@@ -674,6 +676,44 @@ fn run_virtio(c: &Case) -> String {
         if log.is_empty() { "-".to_string() } else { log }, hex(&wm[..used]))
 }
 
+// the three notification builders (fusedev only): notify=entry:<parent>:<namehex> | inode:<ino>:<off>:<len> | resend
+fn run_notify(c: &Case) -> String {
+    let fs = new_fs(c);
+    let server = Server::new(fs.clone());
+    let (a, bfd) = sockpair();
+    let pad = 64usize;
+    let mut wbuf = vec![CANARY; c.cap + 2 * pad];
+    let spec = c.notify.clone().unwrap();
+    let parts: Vec<&str> = spec.split(':').collect();
+    let res;
+    let panicked;
+    {
+        let wslice = &mut wbuf[pad..pad + c.cap];
+        let r = std::panic::catch_unwind(std::panic::AssertUnwindSafe(|| {
+            let writer: FuseDevWriter<'_, ()> = FuseDevWriter::new(a, wslice).unwrap();
+            match parts[0] {
+                "entry" => {
+                    let mut name = unhex(parts[2]);
+                    name.push(0);
+                    let cname = std::ffi::CStr::from_bytes_with_nul(&name).unwrap();
+                    server.notify_inval_entry(writer, parts[1].parse().unwrap(), cname)
+                }
+                "inode" => server.notify_inval_inode(writer, parts[1].parse().unwrap(), parts[2].parse().unwrap(), parts[3].parse().unwrap()),
+                _ => server.notify_resend(writer).map(|_| 0usize),
+            }
+        }));
+        match r {
+            Ok(v) => { res = res_str(&v); panicked = false; }
+            Err(_) => { res = "panic".to_string(); panicked = true; }
+        }
+    }
+    let packets = drain(bfd);
+    unsafe { libc::close(a); libc::close(bfd); }
+    let canary_ok = wbuf[..pad].iter().all(|x| *x == CANARY) && wbuf[pad + c.cap..].iter().all(|x| *x == CANARY);
+    format!("id={} res={} panic={} canary={} calls=- packets={} mem=", c.id, res, panicked as u8, canary_ok as u8,
+        if packets.is_empty() { "-".to_string() } else { packets.iter().map(|p| if p.is_empty() { "e".to_string() } else { hex(p) }).collect::<Vec<_>>().join(",") })
+}
+
 fn main() {
     std::panic::set_hook(Box::new(|_| {}));
     let stdin = io::stdin();
@@ -683,7 +723,7 @@ fn main() {
         let line = line.unwrap();
         if line.trim().is_empty() { continue; }
         let c = parse_case(&line);
-        let r = if c.transport == "virtio" { run_virtio(&c) } else { run_fusedev(&c, false) };
+        let r = if c.notify.is_some() { run_notify(&c) } else if c.transport == "virtio" { run_virtio(&c) } else { run_fusedev(&c, false) };
         writeln!(out, "{}", r).unwrap();
     }
 }
